@@ -195,7 +195,8 @@ type provider struct {
 func (p *provider) StorageProvider() kmsapi.Store  { return p.store }
 func (p *provider) SecretLock() secretlock.Service { return p.lock }
 
-const keyURI = "local-lock://verif/c06"
+// the primary key URI a key manager is opened with: the local secret lock ignores it and nothing stored may depend on it
+func keyURI(n int) string { return fmt.Sprintf("local-lock://verif/c06/agent-%d/primary", n) }
 
 type idInfo struct {
 	str   string
@@ -214,6 +215,7 @@ type world struct {
 	frozen bool
 	faultMode, hit bool
 	failAt, ncalls int
+	uri, obsN      int
 
 	idTab    []idInfo          // every id string seen, in order of first appearance
 	idModel  map[string]string // id string -> Gallina term
@@ -290,6 +292,13 @@ func newWorld(r *hx.Rng) *world {
 }
 
 func openKMS(w *world, recorded bool, mk []byte) (*localkms.LocalKMS, error) {
+	// the working key manager uses the URI of its last (re)opening; every observing key manager another one
+	uri := keyURI(w.uri)
+	if !recorded {
+		w.obsN++
+		uri = keyURI(100 + w.obsN%7)
+	}
+
 	var (
 		st  kmsapi.Store
 		err error
@@ -311,7 +320,7 @@ func openKMS(w *world, recorded bool, mk []byte) (*localkms.LocalKMS, error) {
 		return nil, err
 	}
 
-	return localkms.New(keyURI, &provider{store: st, lock: lock})
+	return localkms.New(uri, &provider{store: st, lock: lock})
 }
 
 func mustOpen(w *world, recorded bool) *localkms.LocalKMS {
@@ -384,6 +393,8 @@ type Op struct {
 	// FailAt k >= 1: the k-th call (Get, Put or Delete) this operation makes on the storage provider UNDERNEATH the
 	// kms store wrapper fails once with an I/O error; 0 = none
 	FailAt int `json:"failat,omitempty"`
+	// URI: reopen: number of the primary key URI the fresh key manager is opened with
+	URI int `json:"uri,omitempty"`
 
 	seq int
 }
@@ -668,6 +679,7 @@ func (w *world) apply(pos int, op Op) Obs {
 		pub, _, err = w.kms.ExportPubKeyBytes(w.refID(op.Ref))
 		isPub = true
 	case "reopen":
+		w.uri = op.URI
 		w.kms = mustOpen(w, true)
 	}
 
@@ -787,7 +799,8 @@ func (w *world) apply(pos int, op Op) Obs {
 	w.rec.Record = true
 
 	if op.Crash >= 0 && !op.Fault {
-		// the process died (or was restarted right after the call): a fresh key manager takes over
+		// the process died (or was restarted right after the call): a fresh key manager takes over (another URI)
+		w.uri = (w.uri + 1) % 3
 		w.kms = mustOpen(w, true)
 	}
 
@@ -852,7 +865,7 @@ func (w *world) coqOp(op Op) string {
 	case "export":
 		o = "KExport " + w.idModel[w.refIDAt(op)]
 	default:
-		o = "KReopen"
+		o = fmt.Sprintf("KReopen %d", op.URI)
 	}
 
 	return "(" + o + ", " + coqCrash(op) + ")"
@@ -953,7 +966,20 @@ func runHistory(kind string, ops []Op, seed *hx.Rng, tr *hx.Trace) {
 			}
 
 			if op.Kind == "rotate" {
-				live[o.ID] = append(append([]int{}, live[old]...), o.Atom)
+				if prev, told := live[old]; told {
+					live[o.ID] = append(append([]int{}, prev...), o.Atom)
+				} else {
+					// the rotated entry was never returned to the caller (e.g. stored by an import that was interrupted
+					// after its Put): no claim about its older keys; what is under the new id now is what must stay
+					live[o.ID] = []int{o.Atom}
+
+					for _, it := range o.Snap {
+						if it.ID == o.ID && it.Present {
+							live[o.ID] = append([]int{}, it.Keys...)
+						}
+					}
+				}
+
 				if o.ID != old {
 					delete(live, old)
 				}
@@ -1505,7 +1531,7 @@ func alphabet(kts []string, full bool) []Op {
 		a = append(a, refsFor([]string{"export"}, crashes, full)...)
 	}
 
-	a = append(a, Op{Kind: "reopen", Crash: -1, Ref: -1})
+	a = append(a, Op{Kind: "reopen", Crash: -1, Ref: -1, URI: 1})
 
 	return a
 }
@@ -1582,7 +1608,7 @@ func randomHistory(r *hx.Rng, n int) []Op {
 		case x < 92:
 			o = Op{Kind: "export", Ref: r.Intn(issued(ops) + 1), Crash: -1}
 		default:
-			o = Op{Kind: "reopen", Ref: -1, Crash: -1}
+			o = Op{Kind: "reopen", Ref: -1, Crash: -1, URI: r.Intn(3)}
 		}
 
 		if o.Kind != "reopen" && o.Kind != "get" && o.Kind != "export" && r.Intn(3) == 0 {
@@ -1720,6 +1746,7 @@ func main() {
 							{Kind: "rotate", Ref: 0, Crash: c1, Fault: flt},
 							{Kind: "rotate", Ref: 1, Crash: c2, Fault: flt},
 							{Kind: "rotate", Ref: 0, Crash: -1},
+							{Kind: "reopen", Ref: -1, Crash: -1, URI: 2},
 							{Kind: "get", Ref: 2, Crash: -1},
 							{Kind: "export", Ref: 1, Crash: -1},
 						}, next(), tr)
